@@ -162,12 +162,35 @@ def scenario(run, rng, origin, chain, final_mode, pv, hook_log):
     def final_raises(exc, exc_info):
         calls.append(('final', type(exc).__name__, exc))
         raise F0('from final')
+    delegate = rng.random() < 0.5
+
     def final_reconnects(exc, exc_info):
         # the auto-reconnect idiom: a *final* handler starting a new connection
         calls.append(('final', type(exc).__name__, exc))
         reconnects.append('final')
-        conn.disconnect(immediate=queue_before_fault)
-        conn.connect()
+        if not delegate:
+            conn.disconnect(immediate=queue_before_fault)
+            conn.connect()
+            return
+        # ... or handing the recovery to a supervisor thread and waiting for it
+        done_ev = threading.Event()
+
+        def supervisor():
+            try:
+                conn.disconnect(immediate=queue_before_fault)
+                conn.connect()
+            except Exception as e:
+                delegated.append(repr(e))
+            done_ev.set()
+        t = threading.Thread(target=supervisor, name='supervisor',
+                             daemon=True)
+        t.start()
+        if not done_ev.wait(8.0):
+            owner = getattr(conn._write_lock, 'owner', None)
+            delegated.append('blocked; write lock owned by %s' % (
+                'the waiting networking thread' if owner ==
+                threading.get_ident() else owner))
+    delegated = []
     final_arg = {'none': None, 'false': False, 'returns': final_returns,
                  'raises': final_raises,
                  'reconnects': final_reconnects}[final_mode]
@@ -179,6 +202,7 @@ def scenario(run, rng, origin, chain, final_mode, pv, hook_log):
                     if h['new_type'] else None) for h in chain]}
     try:
         K = pc.monitored_connection_class()
+        from ..probes import baton as _baton
 
         def handle_exit():
             exits.append(1)
@@ -187,6 +211,8 @@ def scenario(run, rng, origin, chain, final_mode, pv, hook_log):
         conn = K('127.0.0.1', server.port, username='vfuser',
                  allowed_versions={pv}, handle_exception=final_arg,
                  handle_exit=handle_exit)
+        # owner-tracking proxy around a real RLock (evidence for a deadlock)
+        conn._write_lock = _baton.LockProxy(_baton.NullScheduler())
         effective = []
         for h in chain:
             def make(h):
@@ -201,6 +227,10 @@ def scenario(run, rng, origin, chain, final_mode, pv, hook_log):
                     if h['behaviour'] == 'reconnect':
                         reconnects.append(h['id'])
                         conn.connect()
+                    if h['behaviour'] == 'return':
+                        # the return value of a handler has no meaning
+                        return h.setdefault('returns', rng.choice(
+                            (None, False, True, 0, '')))
                     if h['behaviour'] == 'reconnect-raise':
                         reconnects.append(h['id'])
                         conn.connect()
@@ -302,6 +332,14 @@ def scenario(run, rng, origin, chain, final_mode, pv, hook_log):
                 w, calls=[(a, b) for a, b, _c in calls],
                 expected_calls=exp_calls, **extra))
         got_calls = [(a, b) for a, b, _c in calls]
+        if final_mode == 'reconnects' and delegate:
+            run.count('final_handlers_delegating_to_another_thread')
+            if delegated:
+                bad('containment/handler-cannot-delegate', 'a final handler '
+                    'that hands the recovery to another thread and waits for '
+                    'it never sees it finish (the other thread cannot use the '
+                    'connection while the handler runs)', detail=delegated[:2])
+                return None
         if got_calls != exp_calls:
             bad('routing/handler-calls', 'handlers called differently from a '
                 'try/except chain (first match catches; a raising handler '
@@ -601,3 +639,4 @@ def run(run):
     run.require('reuse_checked', 10)
     run.require('reconnects_cancelled_by_later_handler', 5)
     run.require('faults_with_packets_still_queued', 5)
+    run.require('final_handlers_delegating_to_another_thread', 2)
